@@ -1119,6 +1119,7 @@ theorem device_attest_valid_only_if_partial (h : Hash) (dbOk : Bool) (ch : Ch) (
   unfold deviceAttest01Validate at ho
   split at ho; · cases ho; exact absurd hv (by simp [noWrite, hp])
   split at ho; · cases ho; exact absurd hv (by simp [noWrite, hp])
+  split at ho; · cases ho; exact absurd hv (by simp [noWrite, hp])
   split at ho; · cases ho; exact absurd hv (noWrite_not_valid _ _ hp)
   split at ho; · cases ho; exact absurd hv (daBad_not_valid _ _ _ hp)
   split at ho; · cases ho; exact absurd hv (daBad_not_valid _ _ _ hp)
@@ -1126,7 +1127,7 @@ theorem device_attest_valid_only_if_partial (h : Hash) (dbOk : Bool) (ch : Ch) (
   split at ho; · cases ho; exact absurd hv (daBad_not_valid _ _ _ hp)
   split at ho; · cases ho; exact absurd hv (noWrite_not_valid _ _ hp)
   split at ho; · cases ho; exact absurd hv (daBad_not_valid _ _ _ hp)
-  rename_i h1 h1b h2 h3 h4 h5 h6 h7 h8
+  rename_i h1 h1b h1c h2 h3 h4 h5 h6 h7 h8
   have core : dbOk = true ∧ DaAcceptCoded h ch i := by
     unfold daCore at ho
     unfold DaAcceptCoded
@@ -1145,6 +1146,45 @@ theorem device_attest_other_account_authz_refused (h : Hash) (dbOk : Bool) (ch :
     (ha : i.authzOk = true) (ho : i.authzOtherAccount = true) :
     deviceAttest01Validate h dbOk ch i = .val ⟨ch.status, ch.err, .unauthorized, .none, false⟩ := by
   unfold deviceAttest01Validate; simp [ha, ho, noWrite]
+
+/-- **fix e055659**: the same when the authorization is the account's own but this challenge is not
+    one of its challenges — the key attested for one identifier cannot become the attested key of
+    another authorization -/
+theorem device_attest_not_own_authz_refused (h : Hash) (dbOk : Bool) (ch : Ch) (i : DaIn)
+    (ha : i.authzOk = true) (ho : i.authzOtherAccount = false) (hn : i.authzNotOwn = true) :
+    deviceAttest01Validate h dbOk ch i = .val ⟨ch.status, ch.err, .unauthorized, .none, false⟩ := by
+  unfold deviceAttest01Validate; simp [ha, ho, hn, noWrite]
+
+/-- consequently a POST that names another authorization in its URL never writes a fingerprint,
+    whichever account that authorization belongs to -/
+theorem getChallenge_foreign_authz_no_fingerprint (h : Hash) (cfg : Cfg) (dbOk : Bool) (ch : Ch) (i : DaIn) (req : HReq) (r : HOut)
+    (ht : ch.typ = .deviceAttest01) (hp : ch.status = .pending) (hi : i.authzOk = true)
+    (hf : req.azUrl = .foreign ∨ req.azUrl = .foreignOther)
+    (hr : getChallenge h cfg dbOk ch (.attest i) req = .val r) : r.effect.authzFp = false ∧ r.effect.status = .pending := by
+  unfold getChallenge at hr
+  cases hau : req.authed
+  · simp [hau] at hr; subst hr; simp [untouched, hp]
+  cases hex : req.chExists
+  · simp [hau, hex] at hr; subst hr; simp [untouched, hp]
+  cases hown : req.owner
+  · simp [hau, hex, hown] at hr; subst hr; simp [untouched, hp]
+  simp only [hau, hex, hown, Bool.not_true, Bool.false_eq_true, if_false] at hr
+  unfold validate at hr
+  simp only [hp, ne_eq, not_true_eq_false, if_false, ht] at hr
+  rcases hf with hf | hf
+  · simp only [worldVia, hf] at hr
+    by_cases ho : i.authzOtherAccount = true
+    · have := device_attest_other_account_authz_refused h dbOk ch { i with authzNotOwn := true } hi ho
+      rw [this] at hr
+      simp at hr; subst hr; simp [hp]
+    · have ho' : i.authzOtherAccount = false := by simpa using ho
+      have := device_attest_not_own_authz_refused h dbOk ch { i with authzNotOwn := true } hi ho' rfl
+      rw [this] at hr
+      simp at hr; subst hr; simp [hp]
+  · simp only [worldVia, hf] at hr
+    have := device_attest_other_account_authz_refused h dbOk ch { i with authzOtherAccount := true } hi rfl
+    rw [this] at hr
+    simp at hr; subst hr; simp [hp]
 
 /-- `step` alone meets the property's conjunct in full (identifiers are never empty: NewOrder
     rejects an empty permanent identifier) -/
@@ -1169,7 +1209,7 @@ def wX5c : X5c := ⟨true, 2, true, true, true⟩
 def wCh : Ch := ⟨.deviceAttest01, .pending, .none, s "udid-1", s "tok", some (s "thumb"), none⟩
 def wHash : Hash := ⟨fun x => x ++ [0], fun x => x ++ [1]⟩
 def wIn (fm : AttFormat) (f : FmtFacts) : DaIn :=
-  { authzOk := true, authzMissing := false, authzOtherAccount := false, jsonOk := true, errField := false, b64Ok := true, emptyObj := false, cborWellformed := true,
+  { authzOk := true, authzMissing := false, authzOtherAccount := false, authzNotOwn := false, jsonOk := true, errField := false, b64Ok := true, emptyObj := false, cborWellformed := true,
     cborOk := true, format := fm, enabled := true, facts := f, fpNonEmpty := true, authzDbOk := true }
 
 /-- **Refutation (apple binds the token only; reproduced on the real code)**: the clause at full
